@@ -85,11 +85,16 @@ func freePort() int {
 }
 
 func startPool(t interface{ Fatalf(string, ...interface{}) }, extra ...string) *poolProc {
+	return startPoolOn(t, "127.0.0.1", extra...)
+}
+
+// startPoolOn starts the pool binary listening on the given host ("127.0.0.1", "[::]", ...).
+func startPoolOn(t interface{ Fatalf(string, ...interface{}) }, host string, extra ...string) *poolProc {
 	bin, err := vipnodeBinary()
 	if err != nil {
 		t.Fatalf("%v", err)
 	}
-	p := &poolProc{addr: fmt.Sprintf("127.0.0.1:%d", freePort())}
+	p := &poolProc{addr: fmt.Sprintf("%s:%d", host, freePort())}
 	args := append([]string{"pool", "--store=memory", "--bind", p.addr}, extra...)
 	p.cmd = exec.Command(bin, args...)
 	p.cmd.Env = append(os.Environ(), "HOME="+os.TempDir())
